@@ -68,13 +68,14 @@ type Param struct{ Name, Type string }
 var clauseKeywords = map[string]bool{"func": true, "spec": true, "lemma": true, "requires": true, "ensures": true, "modifies": true,
 	"pure": true, "inline": true, "assumed": true, "fp": true, "loop": true, "ghost": true, "property": true, "opaque": true,
 	"noframe": true, "trusted": true, "deterministic": true, "maxinline": true, "allowpanic": true, "import": true, "intsmath": true, "nocanary": true,
-	"havocglobals": true, "readsheap": true, "alloclimit": true, "inlinecalls": true, "unrollcalls": true, "replay": true, "fpcmp": true, "stream": true, "timeout": true, "thorough": true, "terminates": true}
+	"havocglobals": true, "readsheap": true, "alloclimit": true, "table": true, "inlinecalls": true, "unrollcalls": true, "replay": true, "fpcmp": true, "stream": true, "timeout": true, "thorough": true, "terminates": true}
 
 type ContractSet struct {
 	ByPkg   map[string][]*Contract // pkg dir -> contracts in file order
 	Imports map[string][]string
 	Source  string // "repo" or "mirror"
 	AllocLimits map[string]uint64 // element type -> largest make() length allowed
+	Tables  map[string][]string   // dir -> package-level integer arrays computed by init(), dumped from the running program
 }
 
 func findContractFiles(repo, mirror string) (map[string][]string, string) {
@@ -104,7 +105,7 @@ func findContractFiles(repo, mirror string) (map[string][]string, string) {
 
 func parseContracts(repo, mirror string) (*ContractSet, error) {
 	files, src := findContractFiles(repo, mirror)
-	cs := &ContractSet{ByPkg: map[string][]*Contract{}, Imports: map[string][]string{}, Source: src, AllocLimits: map[string]uint64{}}
+	cs := &ContractSet{ByPkg: map[string][]*Contract{}, Imports: map[string][]string{}, Source: src, AllocLimits: map[string]uint64{}, Tables: map[string][]string{}}
 	for dir, fl := range files {
 		for _, f := range fl {
 			if err := cs.parseFile(dir, f); err != nil {
@@ -180,6 +181,8 @@ func (cs *ContractSet) parseFile(dir, file string) error {
 			props = strings.Fields(it.text)
 		case "import":
 			cs.Imports[dir] = append(cs.Imports[dir], strings.TrimSpace(it.text))
+		case "table":
+			cs.Tables[dir] = append(cs.Tables[dir], strings.Fields(it.text)...)
 		case "alloclimit":
 			f := strings.Fields(it.text)
 			if len(f) != 2 {
